@@ -69,6 +69,16 @@ theorem c03_signed_tbb_heap_end_to_end (g : Graph) (hs : g.simpleB = true) (hp :
     McbCorrect g order (mcbSignedTbbH g order σ perm scheds) :=
   mcbSignedTbbH_correct g hs hp order ho σ hσ perm hperm scheds hcov
 
+/-- **`mcb_sva_signed_mpi` with the real heaps** (rank 0's view), for every rank count, per-rank schedule and reduction tree -/
+theorem c04_signed_mpi_heap_end_to_end (g : Graph) (hs : g.simpleB = true) (hp : g.positiveB = true)
+    (order : List Nat) (ho : order.Perm (List.range g.n))
+    (P : Nat) (hP : 1 ≤ P) (perm : List Nat) (hperm : perm.Perm (List.range (createIndex g order).dim))
+    (scheds : Nat → List Nat → Nat → Sched)
+    (hcov : ∀ k S, SlicesCovered (if S.length < g.n then S.length else g.n) P (scheds k S))
+    (trees : Nat → List Nat → RTree) (ht : ∀ k S, TreeOK P (trees k S)) :
+    McbCorrect g order (mcbSignedMpiH g order perm scheds trees) :=
+  mcbSignedMpiH_correct g hs hp order ho P hP perm hperm scheds hcov trees ht
+
 theorem c05_approx_signed_heap_end_to_end (g : Graph) (hs : g.simpleB = true) (hp : g.positiveB = true) (k : Nat)
     (hk : 1 ≤ k) (scan : List Nat) (hscan : scanOkB g scan = true) (order : List Nat) (ho : order.Perm (List.range g.n))
     (σ : Nat → List Nat → List Nat) (hσ : ∀ j S, (σ j S).Perm S) :
